@@ -190,6 +190,13 @@ impl Drop for RawRing {
     }
 }
 
+/// What the kernel allocates for a requested queue size: (sq_entries, cq_entries), read from the
+/// parameters io_uring_setup fills in (raw call, independent of the wrapper).
+pub fn kernel_ring_entries(requested: u32) -> Option<(u32, u32)> {
+    let r = RawRing::new(requested)?;
+    Some((r.p.sq_entries, r.p.cq_entries))
+}
+
 /// One calibration probe: the opcode, the result of the (deliberately failing) first
 /// member and whether the linked NOP behind it was cancelled.
 #[derive(Clone, Debug)]
